@@ -109,7 +109,8 @@ check('C19', level='fault_enumeration', steps=[dict(builder=build_hist, name='hi
       rule=RULE_HIST + "; fault alphabet = 31 libidn2 return codes x {no output buffer, buffer allocated}, injected at the conversion call through -Wl,--wrap=idn2_to_ascii_8z",
       deadline=dict(quick=240, thorough=2400))
 check('C18', level='model_checking', steps=[dict(builder=build_hist, name='hist-c18-lockstep', prop='C18', backends=['idn2', 'idn', 'idnkit']),
-                                             dict(builder=build_hist, name='hist-c18-ctxfail', prop='C18', backends=['idnkit'], xargs=['--ctxfail'])],
+                                             dict(builder=build_hist, name='hist-c18-ctxfail', prop='C18', backends=['idnkit'], xargs=['--ctxfail']),
+                                             dict(builder=build_hist, name='corpus-3-backends', prop='C18corpus', backends=['idn2', 'idn', 'idnkit'])],
       rule=RULE_HIST + "; lock-step: the state is the triple of the three backends' objects",
       deadline=dict(quick=240, thorough=2400),
       mc_keys=dict(states='states', transitions='transitions'), traces_key='histories_replayed')
